@@ -1,8 +1,101 @@
-/- Driver ops for C04 (none yet). -/
+/- Driver ops for C04: closed-form function gradients (`Model/Grad.lean`) on `Float`. -/
 import Xrfmv.Drv.Common
+import Xrfmv.Model.Grad
+
+open Lean Xrfmv.Drv
 
 namespace Xrfmv.Drv.C04
+open Xrfmv.Grad
 
-def ops : List (String × Handler) := []
+def parseKind : String → Except String Kind
+  | "l2" => pure .l2
+  | "light" => pure .light
+  | "prod" => pure .prod
+  | "lpq" => pure .lpq
+  | "sumpower" => pure .sumPower
+  | s => throw s!"bad-op: unknown kernel kind {s}"
+
+def finite (x : Float) : Bool := x.isFinite
+
+def allFinite (m : Array (Array Float)) : Bool := m.all fun r => r.all finite
+
+/-- Kernel kind + parameters; rejects what the constructors of `kernels.py` reject (their `assert`s). -/
+def getKernel (j : Json) : Except String (Kind × Params Float) := do
+  let kind ← parseKind (← j.getObjValAs? String "kind")
+  let L ← getF j "L"
+  let q ← getF j "q"
+  let eps ← getF j "eps"
+  let p ← match kind with
+    | .lpq => getF j "p"
+    | _ => pure q
+  let (cmix, power) ← match kind with
+    | .sumPower => do pure ((← getF j "cmix"), (← getF j "power"))
+    | _ => pure (0.0, 1.0)
+  if !(finite L && finite q && finite p && finite eps && finite cmix && finite power) then
+    throw "bad-op: non-finite kernel parameter"
+  if !(L > 0) then throw "bad-op: bandwidth > 0 required"
+  if !(q > 0) then throw "bad-op: exponent > 0 required"
+  if !(eps > 0) then throw "bad-op: eps > 0 required"
+  if kind == .lpq then
+    if !(0 < p && p <= 2) then throw "bad-op: 0 < p <= 2 required"
+    if !(q <= p) then throw "bad-op: 0 < q <= p required"
+  if kind == .sumPower then
+    if !(0 <= cmix && cmix < 1) then throw "bad-op: 0 <= const_mix < 1 required"
+  pure (kind, { L := L, q := q, p := p, eps := eps, cmix := cmix, power := power })
+
+/-- `mat`: `{"mat": "none"}`, `{"mat": "diag", "matD": [...]}`, `{"mat": "full", "matF": [[...]]}`. -/
+def getTransform (j : Json) (d : Nat) : Except String (Transform Float) := do
+  match (← j.getObjValAs? String "mat") with
+  | "none" => pure .none
+  | "diag" =>
+    let t ← getFs j "matD"
+    if t.size != d then throw "bad-op: diagonal transform of wrong length"
+    if !(t.all finite) then throw "bad-op: non-finite transform"
+    pure (.diag t.toList)
+  | "full" =>
+    let T ← getFss j "matF"
+    if T.size != d || T.any (fun r => r.size != d) then throw "bad-op: transform must be d x d"
+    if !(allFinite T) then throw "bad-op: non-finite transform"
+    pure (.full (T.toList.map Array.toList))
+  | s => throw s!"bad-op: unknown transform {s}"
+
+structure Block where
+  kind : Kind
+  prm : Params Float
+  T : Transform Float
+  x : List (List Float)
+  z : List (List Float)
+  coefs : List (List Float)
+
+def getBlock (j : Json) : Except String Block := do
+  let (kind, prm) ← getKernel j
+  let x ← getFss j "x"
+  let z ← getFss j "z"
+  let c ← getFss j "coefs"
+  if x.size == 0 then throw "bad-op: no centers"
+  let d := x[0]!.size
+  if d == 0 then throw "bad-op: zero-dimensional points"
+  if x.any (fun r => r.size != d) || z.any (fun r => r.size != d) then throw "bad-op: ragged points"
+  if c.any (fun r => r.size != x.size) then throw "bad-op: coefs must be (f, n_x)"
+  if !(allFinite x && allFinite z && allFinite c) then throw "bad-op: non-finite input"
+  let T ← getTransform j d
+  pure { kind := kind, prm := prm, T := T, x := x.toList.map Array.toList, z := z.toList.map Array.toList,
+         coefs := c.toList.map Array.toList }
+
+def tensorJson (g : List (List (List Float))) : Json :=
+  toJson (g.map fun m => m.map fun r => r.map floatToBits)
+
+/-- `get_function_grads(x, z, coefs, mat)` from the closed forms: `(f, n_z, d)`. -/
+def opFgrad : Handler := fun j => do
+  let b ← getBlock j
+  pure <| Json.mkObj [("grads", tensorJson (fgrad b.kind b.prm b.T b.x b.z b.coefs))]
+
+/-- Values `f_l(z_j)` of the (unmasked) closed-form predictor: `(f, n_z)`. -/
+def opFval : Handler := fun j => do
+  let b ← getBlock j
+  let v := b.coefs.map fun c => b.z.map fun z => predictRow b.kind b.prm b.T b.x c z
+  pure <| Json.mkObj [("values", toJson (v.map fun r => r.map floatToBits))]
+
+def ops : List (String × Handler) := [("fgrad", opFgrad), ("fval", opFval)]
 
 end Xrfmv.Drv.C04
